@@ -1008,6 +1008,22 @@ fn emit_lifted(cx: &mut Ctx, specs: &mut Specs, em: &mut Emitter, gens: &[&syn::
     em.raw("");
     // ---- lifted body, only when the spec gives its signature
     let Some(sig) = specs.get(&format!("sig {}", lc.name)).map(|t| positional(t, lc)) else { return vec![]; };
+    // A5p: a closure `move || { <prefix>; Box::pin(async move { .. }) }` does <prefix> when it is CALLED and the rest when the future it
+    // returns is run. If the spec has `@sig F__prefix` / `@fn F__prefix`, the prefix is verified as a function of its own (what creating
+    // the future may do); the whole closure is still verified as the eager run of both parts
+    if let Some(psig) = specs.get(&format!("sig {}__prefix", lc.name)).map(|t| positional(t, lc)) {
+        fn strip(e: &syn::Expr) -> &syn::Expr { match e { syn::Expr::Call(c) if c.args.len() == 1 && nospace(&c.func.to_token_stream().to_string()) == "Box::pin" => strip(&c.args[0]), syn::Expr::Paren(p) => strip(&p.expr), other => other } }
+        let is_split = matches!(lc.body.stmts.last(), Some(syn::Stmt::Expr(e, None)) if matches!(strip(e), syn::Expr::Async(_)));
+        if is_split {
+            let mut l2 = lc.clone();
+            l2.name = format!("{}__prefix", lc.name);
+            l2.body.stmts.pop();
+            cx.cur_fn = l2.name.clone();
+            let _ = emit_lifted_body(cx, specs, em, gens, &l2, file, psig, gtxt_all.clone(), wtxt_all.clone());
+            cx.cur_fn = String::new();
+            cx.fire("A5p");
+        } else { cx.soft.push(format!("lost anchor: closure `{}` no longer has the shape `<prefix>; Box::pin(async move {{..}})` its prefix contract is for", lc.name)); }
+    }
     cx.cur_fn = lc.name.clone();
     let r = emit_lifted_body(cx, specs, em, gens, lc, file, sig, gtxt_all, wtxt_all);
     cx.cur_fn = String::new();
